@@ -48,13 +48,16 @@ Section CoversMain.
     intros HC Hf Hs. rewrite (covers_frag_Gs cls re native D T s nn t Hf). unfold FT. apply HC; assumption.
   Qed.
 
-  Lemma frag_not_one s : frag cls keys s = true -> is_one s = false -> no_one s.
+  Lemma frag_not_one s : frag cls keys s = true -> is_one s = false ->
+    no_one s \/ (forall t, shape cls D T s t -> exists i, get_det T t = Some (DOption i)).
   Proof.
     destruct s as [b|ty fmt enum cst nv sv ik items ai mni mxi uq props req ap mnp mxp allo anyo oneo no ref dflt title];
-      [intros _ _; exact I|].
+      [intros _ _; left; exact I|].
     intros Hf Hio. apply frag_obj_inv in Hf. destruct Hf as (nl & k & Hcl & _ & _ & _ & Hone & _).
     unfold is_one in Hio. cbn [classify_s] in Hio. rewrite Hcl in Hio. cbn [no_one].
-    destruct k; try exact Hone. discriminate Hio.
+    destruct k; try (left; exact Hone); try discriminate Hio.
+    right. intros t Hs. cbn [shape] in Hs. rewrite Hcl in Hs. destruct Hone as [-> _]. cbn [kshape] in Hs.
+    destruct oneo as [[|a [|b [|]]]|]; try contradiction. destruct Hs as (i & Hi & _). exists i. exact Hi.
   Qed.
 
   Lemma struct_case_gen skip ty (props : list (ustring * schema)) req ap nn ps deny :
@@ -88,14 +91,18 @@ Section CoversMain.
       destruct (HM (k, s') Hin) as [Hx|(p & Hp & Hw & _ & Hcase)]; [cbn [fst] in Hx; congruence|]. cbn [fst snd] in *.
       rewrite (find_wire k ps p Hndw Hp Hw).
       destruct (Hall (k, s') Hin Hsk) as (HCs & Hfs & Hos). cbn [fst snd] in *.
-      destruct Hcase as [(Hreq & _ & Hsh)|(Hnreq & Hst & [(Hsh & d & Hd & Hi)|(t' & Ht' & Hsh & _)])].
+      destruct Hcase as [(Hreq & _ & Hsh)|(Hnreq & Hst & [(Hsh & d & Hd & Hi)|(t' & Ht' & Hsh & Hni)])].
       - rewrite (Cv_covers s' _ false HCs Hfs Hsh), Hreq. reflexivity.
       - rewrite (Cv_covers s' _ false HCs Hfs Hsh). cbn [andb].
         rewrite (missing_optional re native T p d Hst Hd); [apply orb_true_r|].
         destruct d; try discriminate Hi; exact I.
       - rewrite (covers_frag_Gs cls re native D T s' false (p_ty p) Hfs). unfold FT.
         rewrite Hnreq in Hos. cbn [orb] in Hos. apply negb_true_iff in Hos.
-        rewrite (Gs_option cls re native D T s' 5 false (p_ty p) t' Hfs (frag_not_one s' Hfs Hos) Ht' (HCs Hfs t' Hsh 3%nat true)).
+        destruct (frag_not_one s' Hfs Hos) as [Hno1|Hopt'].
+        2: { exfalso. destruct (Hopt' t' Hsh) as (i & Hi).
+             match goal with Hni : forall d, has T t' d -> intrinsic d = false |- _ => pose proof (Hni _ Hi) as Hx end.
+             discriminate Hx. }
+        rewrite (Gs_option cls re native D T s' 5 false (p_ty p) t' Hfs Hno1 Ht' (HCs Hfs t' Hsh 3%nat true)).
         cbn [andb]. rewrite (missing_optional re native T p (DOption t') Hst Ht' I). apply orb_true_r. }
     rewrite H1. cbn [andb].
     assert (H2 : forallb (fun p => match wire_name p with None => true | Some w => has_key w props end) ps = true).
@@ -205,7 +212,7 @@ Section CoversMain.
                   go re native T A cov (Some l) fmt enum None nv sv ik items mni mxi props req ap
                      None None None None None (S ft0) nn0 t0 = true).
         { intros t0 Hk0 ft0 nn0 Hnn.
-          destruct k as [| | | |mx mn pat|r|raws|deny| | |c|c|r| |tg]; try contradiction; cbn [kshape] in Hk0.
+          destruct k as [| | | |mx mn pat|r|raws|deny| | |c|c|r| |tg|]; try contradiction; cbn [kshape] in Hk0.
           - subst tt. eapply go_leaf; [exact Hk0|reflexivity..|].
             cbn [leaf_ok]. apply Htyis; [exact Hnn|discriminate|reflexivity].
           - subst tt. eapply go_leaf; [exact Hk0|reflexivity..|].
@@ -276,7 +283,48 @@ Section CoversMain.
         destruct nl.
         * destruct Hs as (i & Ht & Hki). eapply go_option; [exact Ht|]. apply (Hleaf i Hki ft true). reflexivity.
         * apply (Hleaf t Hs (S ft) nn). discriminate.
-      + destruct Hrk as [(r & -> & ->)|[(-> & ->)|(bs & tg & -> & -> & -> & Hok)]]; cbn [kshape] in Hs.
+      + destruct Hrk as [(r & -> & ->)|[(-> & ->)|(bs & -> & -> & [(tg & -> & Hok)|(-> & Hos)])]]; cbn [kshape] in Hs.
+        4: { (* Option of the non-null arm of a union *)
+          destruct bs as [|a [|b [|]]]; try contradiction. destruct Hs as (i & Hd & Hsh).
+          cbn [frag_kind] in Hf. cbn [OForall] in IHone.
+          eapply go_union; [exact Hd|reflexivity|reflexivity|]. cbn [union_ok forallb]. rewrite andb_true_r.
+          assert (Hnull : forall n, nullish n = true -> plain_null n = true -> forall d, get_det T i = Some d ->
+                    cov n true (TId i) = true).
+          { intros n Hn1 Hn2 d Hdi. unfold plain_null, scalar_arm in Hn2. destruct_matches Hn2.
+            all: try discriminate Hn1.
+            all: repeat match type of Hn2 with context [if ?c then _ else _] => destruct c eqn:? end; try discriminate Hn2.
+            all: bool_facts; subst.
+            all: cbn [covers covers_obj orb]; unfold FT; eapply go_vacuous; [exact Hdi|reflexivity|reflexivity]. }
+          assert (Hhas : forall arm, frag cls keys arm = true -> shape cls D T arm i -> exists d, get_det T i = Some d).
+          { intros arm Hfa Hsa.
+            destruct arm as [|aty afmt aenum acst anv asv aik aitems aai amni amxi auq aprops areq aap amnp amxp aallo aanyo aoneo ano aref adflt atitle];
+              [contradiction|]. cbn [shape] in Hsa.
+            destruct (classify aty afmt aenum acst anv asv aik aitems aai amni amxi auq aprops areq aap amnp amxp aallo aanyo aoneo ano aref adflt atitle)
+              as [[[|] k']|]; [| |contradiction].
+            - destruct Hsa as (j & Hj & _). eexists. exact Hj.
+            - destruct k'; cbn [kshape] in Hsa; try (destruct aoneo as [[|a1 [|b1 [|]]]|]; try contradiction);
+                try (destruct aoneo as [bs1|]; [|contradiction]);
+                repeat match goal with
+                       | H : exists _, _ |- _ => destruct H as (? & H)
+                       | H : _ /\ _ |- _ => destruct H as [H ?]
+                       end; unfold has in *; eexists; eassumption. }
+          unfold opt_shape in Hos.
+          destruct ((2 <=? length [a; b])%nat && (length (filter (fun b0 => negb (nullish b0)) [a; b]) =? 1)%nat) eqn:Hcnt; [|discriminate].
+          apply andb_true_iff in Hcnt. destruct Hcnt as [_ Hcnt]. cbn [filter] in Hcnt.
+          destruct (nullish a) eqn:Hna; destruct (nullish b) eqn:Hnb; cbn [negb length Nat.eqb] in Hcnt; try discriminate Hcnt;
+            cbn [andb orb] in Hos.
+          - (* a is the null arm *)
+            apply andb_true_iff in Hf. destruct Hf as [_ Hfb].
+            destruct (Hhas b Hfb Hsh) as (d & Hdi).
+            destruct (plain_null a) eqn:Hpa; [|discriminate Hos].
+            rewrite (Hnull a Hna Hpa d Hdi). cbn [andb].
+            exact (Cv_covers b i true (proj1 (proj1 (Forall_inv (Forall_inv_tail IHone)))) Hfb Hsh).
+          - (* b is the null arm *)
+            apply andb_true_iff in Hf. destruct Hf as [_ Hfa].
+            destruct (Hhas a Hfa Hsh) as (d & Hdi).
+            destruct (plain_null b) eqn:Hpb; [|discriminate Hos].
+            rewrite (Hnull b Hnb Hpb d Hdi), andb_true_r.
+            exact (Cv_covers a i true (proj1 (proj1 (Forall_inv IHone))) Hfa Hsh). }
         * subst oneo. destruct Hs as (Hri & d & Hd & _). eapply go_ref; [exact Hd|reflexivity|]. apply mem_pair_ref. exact Hri.
         * subst oneo. apply go_json. exact Hs.
         * (* a tagged oneOf *)
@@ -377,7 +425,7 @@ Section CoversMain.
         cbn [frag] in Hf. rewrite Hcl in Hf. change (frag_kind cls D (KStruct deny) items props req ap None = true) in Hf.
         pose proof Hcl as Hcases. apply classify_cases in Hcases.
         destruct Hcases as [(l & tt & -> & -> & Hsp & Hkt)
-                           |(_ & _ & _ & _ & _ & _ & _ & _ & _ & _ & _ & _ & _ & [(r & _ & Hk)|[(_ & Hk)|(bs & tg & _ & _ & Hk & _)]])];
+                           |(_ & _ & _ & _ & _ & _ & _ & _ & _ & _ & _ & _ & _ & [(r & _ & Hk)|[(_ & Hk)|(bs & _ & _ & [(tg & Hk & _)|(Hk & _)])]])];
           try discriminate Hk.
         apply kind_of_type_inv in Hkt. destruct Hkt as (_ & _ & _ & _ & _ & _ & _ & -> & Hap).
         cbn [covers covers_obj orb]. destruct Hss as (Hndw & _ & HM & Hback).
@@ -391,7 +439,7 @@ Section CoversMain.
         cbn [frag] in Hf. rewrite Hcl in Hf. change (frag_kind cls D KTuple items props req ap None = true) in Hf.
         pose proof Hcl as Hcases. apply classify_cases in Hcases.
         destruct Hcases as [(l & tt & -> & -> & Hsp & Hkt)
-                           |(_ & _ & _ & _ & _ & _ & _ & _ & _ & _ & _ & _ & _ & [(r & _ & Hk)|[(_ & Hk)|(bs & tg & _ & _ & Hk & _)]])];
+                           |(_ & _ & _ & _ & _ & _ & _ & _ & _ & _ & _ & _ & _ & [(r & _ & Hk)|[(_ & Hk)|(bs & _ & _ & [(tg & Hk & _)|(Hk & _)])]])];
           try discriminate Hk.
         apply kind_of_type_inv in Hkt. destruct Hkt as (_ & _ & Hlen & _ & _ & _ & _ & -> & ->).
         apply tuple_len_inv in Hlen. destruct Hlen as [-> ->].
